@@ -121,7 +121,8 @@ def _resolve_table(cx, resolve, d_init):
         ok = [norm(v) for v in ms[0].value.values] == ["parent.modifiers", "self.modifiers"]
     cx.ob("R14c", ms[0] if ms else resolve, ok, "modifiers = parent's, then own (own override)" if ok else "modifier merge is not {**parent.modifiers, **self.modifiers}")
     if ms:
-        g = any(isinstance(e, ast.Compare) and isinstance(e.ops[0], ast.IsNot) and pol and norm(e.left) == "self.parent_syntax_id" for e, pol in facts(ms[0]))
+        g = any(isinstance(e, ast.Compare) and len(e.ops) == 1 and norm(e.left) == "self.parent_syntax_id" and isinstance(e.comparators[0], ast.Constant) and e.comparators[0].value is None and
+                (isinstance(e.ops[0], ast.IsNot) and pol or isinstance(e.ops[0], ast.Is) and not pol) for e, pol in facts(ms[0]))
         cx.ob("R14c", ms[0], g, "merged only when there is a parent" if g else "modifier merge is not under `parent_syntax_id is not None`", stmt=norm(ms[0]) + " [guard]")
     fc = [c for c in walk_local(resolve) if isinstance(c, ast.Call) and call_name(c) == "ColorFmt"]
     ok = len(fc) == 1 and any(k.arg is None and norm(k.value) == "self.modifiers" for k in fc[0].keywords) and norm(fc[0].args[0]) == "self.fg_color" \
